@@ -155,7 +155,9 @@ class Distributor(object):
     def countIdealOverlaps(self, nodes):
         iTree = IntervalTree()
         for node in nodes:
-            iTree.addi(node.idealLeft(), node.idealRight(), data=node)
+            # an empty interval (label of width 0) overlaps nothing
+            if node.idealLeft() < node.idealRight():
+                iTree.addi(node.idealLeft(), node.idealRight(), data=node)
 
         for node in nodes:
             overlaps = iTree.overlap(node.idealLeft(), node.idealRight())
